@@ -265,7 +265,6 @@ def check_frame(ctx, length, op, masked, key, pat, prefix="", via_send=False):
         req = FakeRequest()
         writeFrameFactory(WebSocketTemporaryRingBuffer(req))(f)
         wire = b"".join(req.written)
-        built = (f.payload_length, bytes(f.payload))
     except ValueError as e:
         if oversize_control:
             refused = True
@@ -277,8 +276,6 @@ def check_frame(ctx, length, op, masked, key, pat, prefix="", via_send=False):
         ctx.violation("ws-encode-header", "%s: building/serialising raised %r" % (what, e), case)
         refused = True
     if not refused:
-        if built != (length, payload):
-            ctx.violation("ws-build", "%s: built frame has payload_length=%r payload=%s" % (what, built[0], brief(built[1])), case)
         if hdr != ref_hdr:
             ctx.violation("ws-encode-header", "%s: serializeHeader+serializeDataHeader = %s, RFC 6455 header = %s" % (
                 what, hdr.hex(), ref_hdr.hex()), case)
@@ -692,8 +689,8 @@ def plan(tier):
     if tier == "quick":
         specs.append({"part": "enc", "lengths": list(range(0, 1001))})
         specs.append({"part": "enc", "lengths": list(range(65500, 65571)) + list(range(69990, MAXLEN + 1))})
-        for i in range(3):
-            specs.append({"part": "hyp-frame", "n": 4000, "i": i})
+        for i in range(4):
+            specs.append({"part": "hyp-frame", "n": 2500, "i": i})
         specs.append({"part": "cuts", "stream": "tiny", "positions": "all", "sizes": [1, 2, 3, 4]})
         specs.append({"part": "cuts", "stream": "tiny-close", "positions": "all", "sizes": [1, 2, 3, 4]})
         specs.append({"part": "cuts", "stream": "empty", "positions": "all", "sizes": [1, 2, 3, 4]})
@@ -702,14 +699,16 @@ def plan(tier):
         for i in range(2):
             specs.append({"part": "cuts", "stream": "forms2", "positions": "all", "sizes": [1, 2], "stride": [i, 2]})
         specs.append({"part": "cuts", "stream": "big", "positions": 509, "sizes": [1]})
-        specs.append({"part": "cuts", "stream": "big", "positions": "structure", "sizes": [2]})
-        for i in range(6):
-            specs.append({"part": "hyp-stream", "n": 4500, "i": i})
+        for i in range(2):
+            specs.append({"part": "cuts", "stream": "big", "positions": "structure", "sizes": [2], "stride": [i, 2]})
+        for i in range(8):
+            specs.append({"part": "hyp-stream", "n": 3000, "i": i})
     else:
         n = 32
         for i in range(n):
             specs.append({"part": "enc", "range": [i, MAXLEN + 1, n],
-                          "claim": "frames: every payload length 0..70000 x 5 opcodes x mask flag (one derived key and payload each)"})
+                          "claim": "frames: every payload length L in 0..70000 with L mod %d == %d x 5 opcodes x mask flag "
+                                   "(one derived key and payload each)" % (n, i)})
         for i in range(8):
             specs.append({"part": "hyp-frame", "n": 20000, "i": i})
         specs.append({"part": "cuts", "stream": "tiny", "positions": "all", "sizes": [1, 2, 3, 4]})
